@@ -308,6 +308,65 @@ def _tombstone_rule(chk, prog):
         raise AnalysisBroken("only %d symcache slot stores found" % n)
 
 
+def _canon_rule(chk, prog):
+    """Struct equality/hash/compare walk the slot array, so two structs with the same pairs must have the same
+    layout whatever the insertion order.  janet_struct_put_ext gets that from a sorted insertion: the decision
+    'does the new pair go before the resident one' must be a strict total order on (distance, hash, key).  The
+    shape is a chain of antisymmetric pairs  if (a < b) s = -1; else if (b < a) s = 1;  ending, when everything
+    ties, in the total order on values (janet_compare).  A one-sided pair, or a last step that is not a total
+    order (an equality test, say), makes the layout depend on insertion order for keys with equal hashes."""
+    rule = "C03-CANON"
+    chk.rule(rule, "struct insertion order is decided by antisymmetric comparisons ending in the total order janet_compare")
+    fn = prog.need_func("janet_struct_put_ext")
+    chk.analysed(fn)
+    chains = []
+    inner = set(n.kids[2].id for n in fn.nodes if n.k == "if" and len(n.kids) == 3 and n.kids[2].k == "if")
+    for n in fn.nodes:
+        if n.k != "if" or len(n.kids) != 3 or n.id in inner:
+            continue
+        steps, cur, var = [], n, None
+        while cur is not None and cur.k == "if" and len(cur.kids) == 3 and cur.kids[1].k == "asg" and is_ref(cur.kids[1].kids[0]):
+            a = cur.kids[1]
+            if var is None:
+                var = a.kids[0].name
+            if a.kids[0].name != var or a.kids[1].v is None:
+                break
+            steps.append((cur.kids[0], a.kids[1].v, cur))
+            cur = cur.kids[2]
+        if len(steps) >= 2 and cur is not None and cur.k == "asg" and is_ref(cur.kids[0], var):
+            chains.append((var, steps, cur))
+    if len(chains) != 1:
+        raise AnalysisBroken("janet_struct_put_ext: expected one ordering chain (if/else-if assigning one variable), found %d" % len(chains))
+    var, steps, last = chains[0]
+    if len(steps) % 2:
+        chk.instance(rule)
+        chk.violation(rule, "struct.c", fn.name, "chain", steps[-1][2].loc,
+                      "the ordering chain for `%s` has an odd number of comparison steps: some `<` has no mirrored `>`" % var)
+    for i in range(0, len(steps) - 1, 2):
+        (c1, v1, n1), (c2, v2, n2) = steps[i], steps[i + 1]
+        chk.instance(rule)
+        ok = (c1.k == "bin" and c2.k == "bin" and c1.op == "<" and c2.op == "<"
+              and c1.kids[0].text() == c2.kids[1].text() and c1.kids[1].text() == c2.kids[0].text()
+              and v1 == -v2 and v1 != 0)
+        if ok:
+            chk.ok(rule, "%s: `%s` -> %d mirrored by `%s` -> %d" % (fn.name, c1.text(), v1, c2.text(), v2))
+        else:
+            chk.violation(rule, "struct.c", fn.name, "pair:%s" % c1.text(), n1.loc,
+                          "ordering step `%s` -> %s is not mirrored by the next step `%s` -> %s: the insertion order is not antisymmetric"
+                          % (c1.text(), v1, c2.text(), v2))
+    chk.instance(rule)
+    rhs = strip_casts(last.kids[1])
+    params = [p for p in fn.params]
+    if rhs.k == "call" and rhs.callee == "janet_compare" and len(rhs.args) == 2 \
+            and sorted(("key" if is_ref(strip_casts(a)) else "slot" if strip_casts(a).k == "mem" and strip_casts(a).field == "key" else "?")
+                       for a in rhs.args) == ["key", "slot"]:
+        chk.ok(rule, "%s: full tie falls back to janet_compare(%s)" % (fn.name, ", ".join(a.text() for a in rhs.args)))
+    else:
+        chk.violation(rule, "struct.c", fn.name, "tiebreak", last.loc,
+                      "when distance and hash tie, `%s` is set from `%s`, not from janet_compare(new key, resident key): distinct keys with "
+                      "equal hashes are laid out in insertion order, so equal structs stop being equal" % (var, rhs.text()[:80]))
+
+
 def run(chk):
     prog = Program.load("default")
     _tombstone_rule(chk, prog)
@@ -316,3 +375,4 @@ def run(chk):
     _intern_rule(chk, prog)
     _beginend_rule(chk, prog)
     _negzero_rule(chk, prog)
+    _canon_rule(chk, prog)
